@@ -95,8 +95,8 @@ def run_model_batch(cases):
             i += 1
             evs = [flat[i + 6 * k:i + 6 * k + 6] for k in range(nev)]
             i += 6 * nev
-            r.append((evs, flat[i:i + 6]))
-            i += 6
+            r.append((evs, flat[i:i + 7]))
+            i += 7
         res.append((r, bool(flat[i])))
     return res
 
@@ -271,7 +271,7 @@ class Run:
     def project(self):
         c = self.c
         return [CS[c._state.name], int(c._sock is not None), int(bool(c._registered_write)), len(c._out_packet),
-                int(c._ping_t != 0), int(c._protocol)]
+                int(c._ping_t != 0), int(c._protocol), int(bool(getattr(c, '_connect_queued', True)))]
 
     # ---- one top-level operation
     def feed_input(self, call):
@@ -402,7 +402,7 @@ def first_diff(cfg, impl_res, model_res):
 # ------------------------------------------------------------------ hypotheses of the theorems, findings
 EXCL = ["D", "R"]
 SIGNATURE = {
-    "D": "F-C10d-publish-in-socket-open",
+    "D": "F-C10k-reconnect-in-socket-open",
     "H": "F-C10h-connected-inside-sock-close",
     "R": "F-C10i-connection-calls-in-teardown-callbacks",
     "T": "F-C16a-reconnect-in-teardown-callbacks",
@@ -480,12 +480,17 @@ def rand_op(rng, cfg, within=True):
     scr = []
     for s in SITES:
         q = []
-        if rng.random() < 0.3 and not (within and s == "open" and not cfg["ext"]):
+        if rng.random() < 0.3:
             cl = [0, 1, 2, 3, 3, 4]
+            if s == "open":
+                # reconnect() from on_socket_open (F-C10k) makes the outer reconnect() put a second CONNECT in front of
+                # whatever the inner one left half written: the byte stream is then garbage and cannot be decoded into
+                # packets by this harness.  The finding is covered by the corpus witnesses, not by random lists.
+                cl = [0, 1, 2]
             if within:
                 if s in ("close", "unregw"):
                     cl = [0, 1]
-                elif s in ("regw", "open"):
+                elif s == "regw":
                     cl = [0, 1, 2]
             for _ in range(rng.choice([1, 1, 2])):
                 q.append(tuple(rng.choice(cl) for _ in range(rng.choice([0, 1, 1, 2]))))
@@ -502,7 +507,7 @@ def random_case(rng, within=True):
 
 def corpus_cases():
     """(name, cfg, ops, expected finding letter or None).  First the regression replays of the repaired defects
-    (F-C10a/b/c, e, f, g, j, the first form of i, d in external-loop mode): they must pass.  Then the witnesses of
+    (F-C10a/b/c, d, e, f, g, j, the first form of i, h on the error paths): they must pass.  Then the witnesses of
     the open findings (Link/ConnRefuted.v): they must be rejected."""
     d4 = {"ext": False, "sockcb": False, "proto": 4, "api": 2}
     d5 = dict(d4, proto=5)
@@ -525,10 +530,12 @@ def corpus_cases():
         ("F-C10j", d4, [O(("connect", True)), O(("read", "connack", 5), (), scr_of(connect=[[4]]))], None),
         ("F-C10i-rc-after-reconnect", ex, [O(("connect", True)), O(("disconnect",)), O(("read", "eof"), (), scr_of(unregw=[[3]]))], None),
         ("F-C10d-external-loop", excb, [O(("connect", True), (), scr_of(open=[[0, 2]])), O(("write",))], None),
+        ("F-C10d", cb, [O(("connect", True), (), scr_of(open=[[0]]))], None),
+        ("F-C10d-disconnect", cb, [O(("connect", True), (), scr_of(open=[[2, 0]])), O(("read", "connack", 0)), O(("write",))], None),
         ("F-C10h-loop-error", excb, [O(("connect", True)), O(("write",)), ca, O(("publish",)), O(("read", "eof"))], None),
         ("F-C10h", ex, [O(("connect", True)), ca, O(("connect", False))], "H"),
-        ("F-C10d", cb, [O(("connect", True), (), scr_of(open=[[0]]))], "D"),
-        ("F-C10d-reconnect-external-loop", excb, [O(("connect", True), (), scr_of(open=[[3]])), O(("write",))], "D"),
+        ("F-C10k", excb, [O(("connect", True), (), scr_of(open=[[3]])), O(("write",))], "D"),
+        ("F-C10k-direct", cb, [O(("connect", True), (), scr_of(open=[[3]]))], "D"),
         ("F-C10i", ex, [O(("reconnect", True)), O(("misc", 1), (), scr_of(unregw=[[2]]))], "R"),
         ("F-C10i-close", cb, [O(("reconnect", True)), O(("reconnect", True), (4,), scr_of(close=[[2]]))], "R"),
         ("F-C16a", excb, [O(("connect", True)), O(("connect", True), (), scr_of(unregw=[[3]]))], "T"),
